@@ -457,6 +457,363 @@ def mon_c08(case, obs, prefix):
     return bad
 
 
+TERMR, IMMER = 2048, 128
+
+
+def _sess_urrs(sess):
+    return {u["id"]: u for u in (sess["urrs"] or [])} if sess else {}
+
+
+def _owner_peer(dump, sess, prefix):
+    for n in dump.get("nodes") or []:
+        if n["obj"] == sess["node"]:
+            ip = n["id"]
+            if ip.startswith(prefix):
+                try:
+                    return int(ip[len(prefix):]) - 10
+                except ValueError:
+                    return None
+    return None
+
+
+def _expect_ie(u, r, seqn=None):
+    """the usage-report IE go-upf must build for driver report r of a URR with profile u (TS 29.244 7.5.8.3)"""
+    trig = r["trig"] % (1 << 24)
+    no_times = bool(r["trig"] & (16 | 32 | (1 << 14)))
+    vf = (r.get("vflags", 0) | 7 | (56 if u["mnop"] else 0)) % 256
+    cnt = (list(r["cnt"]) + [0] * 6)[:6]
+    return {"urr": r["urr"], "trig": trig, "start": None if no_times else r["start"], "end": None if no_times else r["end"],
+            "vol": {"flags": vf, "cnt": [c if vf & (1 << i) else 0 for i, c in enumerate(cnt)]} if u["volum"] else None,
+            "dur": (r.get("dur", 0) % (1 << 32)) if u["durat"] else None}
+
+
+def _ie_matches(ie, exp, extra_trig=0):
+    return (ie["urr"] == exp["urr"] and ie["trig"] == (exp["trig"] | extra_trig) % (1 << 24) and ie["start"] == exp["start"]
+            and ie["end"] == exp["end"] and ie["vol"] == exp["vol"] and ie["dur"] == exp["dur"])
+
+
+def mon_c10(case, obs, prefix):
+    bad = []
+    for i, ev, o, prev, prev_dp, dup in walk(case, obs, prefix):
+        if o.get("fault"):
+            bad.append((i, "fault: " + o["fault"]))
+            break
+        d = o["dump"]
+        sends = o["sends"] or []
+        if ev["t"] == "report":
+            items = ev["items"]
+            s = live(prev, ev["seid"])
+            reqs = [x for x in sends if x["type"] == "srreq"]
+            if s is None:
+                if sends or core(prev, prev_dp) != core(d, o["dp"] or []):
+                    bad.append((i, "report for SEID %d (not live) had an effect" % ev["seid"]))
+                continue
+            owner = _owner_peer(prev, s, prefix)
+            for x in reqs:
+                if x["dst"] != owner:
+                    bad.append((i, "Session Report Request sent to peer %s, the session belongs to node %s" % (x["dst"], owner)))
+                if x["seid"] != s["rid"]:
+                    bad.append((i, "Session Report Request carries SEID %d, the peer's SEID is %d" % (x["seid"], s["rid"])))
+            if all(it.get("usa") for it in items):
+                urrs = _sess_urrs(s)
+                known = [it["usa"] for it in items if it["usa"]["urr"] in urrs]
+                usar = [x for x in reqs if x["dldr"] < 0]
+                if known:
+                    if len(usar) != 1:
+                        bad.append((i, "usage report for a live session and known URR produced %d Session Report Requests" % len(usar)))
+                        continue
+                    ies = usar[0]["urs"] or []
+                    if len(ies) != len(known):
+                        bad.append((i, "%d usage reports for known URRs, %d Usage Report IEs sent" % (len(known), len(ies))))
+                        continue
+                    for r, ie in zip(known, ies):
+                        if not _ie_matches(ie, _expect_ie(urrs[r["urr"]], r)):
+                            bad.append((i, "Usage Report IE %s does not carry the measured values %s intact" % (
+                                {k: ie[k] for k in ("urr", "trig", "start", "end", "vol", "dur")}, _expect_ie(urrs[r["urr"]], r))))
+        elif ev["t"] == "recv" and not dup and ev["msg"]["k"] in ("mod", "del"):
+            # every IE in the response stems from a report the data plane returned during this request, values intact
+            s = live(prev, ev["msg"]["seid"])
+            snow = live(d, ev["msg"]["seid"])
+            if s is None:
+                continue
+            scripted = [r for u in ev.get("usage", []) for r in u["rpts"]]
+            profiles = dict(_sess_urrs(s))
+            profiles.update(_sess_urrs(snow))
+            for x in sends:
+                if x["type"] not in ("modrsp", "delrsp"):
+                    continue
+                for ie in x["urs"] or []:
+                    u = profiles.get(ie["urr"])
+                    if u is None:
+                        continue
+                    cands = [r for r in scripted if r["urr"] == ie["urr"]]
+                    if not any(_ie_matches(ie, _expect_ie(u, r), t) for r in cands for t in (0, TERMR, IMMER, TERMR | IMMER)):
+                        # the URR's profile may have been updated in this very request: accept any profile bits
+                        alt = [dict(u, volum=v, durat=dd, mnop=m) for v in (0, 1) for dd in (0, 1) for m in (0, 1)]
+                        if not any(_ie_matches(ie, _expect_ie(a, r), t) for a in alt for r in cands for t in (0, TERMR, IMMER, TERMR | IMMER)):
+                            bad.append((i, "Usage Report IE for URR %d in the response matches no report the data plane returned" % ie["urr"]))
+    return bad
+
+
+def mon_c11(case, obs, prefix):
+    bad = []
+    nxt = {}       # (UP SEID, URR id) -> next UR-SEQN expected, tracked independently of the implementation
+    for i, ev, o, prev, prev_dp, dup in walk(case, obs, prefix):
+        if o.get("fault"):
+            bad.append((i, "fault: " + o["fault"]))
+            break
+        d = o["dump"]
+        sends = o["sends"] or []
+        lid = None
+        if ev["t"] == "report":
+            lid = ev["seid"]
+            carriers = [x for x in sends if x["type"] == "srreq" and x["dldr"] < 0]
+        elif ev["t"] == "recv" and not dup and ev["msg"]["k"] in ("mod", "del"):
+            lid = ev["msg"]["seid"]
+            carriers = [x for x in sends if x["type"] in ("modrsp", "delrsp") and x["cause"] == 1]
+        else:
+            carriers = []
+        if lid is not None and live(prev, lid) is not None:
+            before = _sess_urrs(live(prev, lid))
+            # URRs created by this very request start at 0 (they may report in the same response)
+            created = set()
+            if ev["t"] == "recv" and ev["msg"]["k"] == "mod":
+                created = {u["id"] for u in (ev["msg"].get("ops") or {}).get("cURR", []) if u.get("id") is not None}
+            for x in carriers:
+                for ie in x["urs"] or []:
+                    k = (lid, ie["urr"])
+                    if ie["urr"] in created and ie["urr"] not in before:
+                        nxt.setdefault(k, 0)
+                    want = nxt.get(k, 0)
+                    if ie["seqn"] != want:
+                        bad.append((i, "UR-SEQN %d for URR %d of session %d, expected %d" % (ie["seqn"], ie["urr"], lid, want)))
+                    nxt[k] = (ie["seqn"] + 1) % (1 << 32)
+        # bookkeeping: URRs and sessions that ended restart at 0
+        for (l, u) in list(nxt):
+            s = live(d, l)
+            if s is None or u not in _sess_urrs(s) or (live(prev, l) is not None and live(prev, l)["rid"] != s["rid"]):
+                del nxt[(l, u)]
+    return bad
+
+
+def sig_c11(case, failures):
+    """create-urr-existing-id: a Create URR names a URR id that the session already holds (not removed)"""
+    if not any("UR-SEQN" in m for _, m in failures):
+        return None
+    have = {}
+    nsess = 0
+    for ev in case["events"]:
+        if ev["t"] != "recv":
+            continue
+        m = ev["msg"]
+        ops = m.get("ops") or {}
+        if m["k"] == "est":
+            nsess += 1
+            ids = [u.get("id") for u in ops.get("cURR", [])]
+            if len(ids) != len(set(ids)):
+                return "create-urr-existing-id"
+            have[nsess] = set(ids)
+        if m["k"] == "mod":
+            cur = have.setdefault(m["seid"], set())
+            for u in ops.get("cURR", []):
+                if u.get("id") in cur:
+                    return "create-urr-existing-id"
+                cur.add(u.get("id"))
+    return None
+
+
+def _pdr_map(sess):
+    return {p["id"]: set(p["urrs"] or []) for p in (sess["pdrs"] or [])}
+
+
+def mon_c12(case, obs, prefix):
+    bad = []
+    for i, ev, o, prev, prev_dp, dup in walk(case, obs, prefix):
+        if o.get("fault"):
+            bad.append((i, "fault: " + o["fault"]))
+            break
+        d = o["dump"]
+        for idx, s in enumerate(d["slots"] or []):
+            if s is None:
+                continue
+            pm = _pdr_map(s)
+            for u in s["urrs"] or []:
+                refs = sum(1 for ids in pm.values() if u["id"] in ids)
+                if u["ref"] != refs:
+                    bad.append((i, "session %d: URR %d counts %d referring PDRs, %d PDRs name it" % (idx + 1, u["id"], u["ref"], refs)))
+        if ev["t"] != "recv" or dup or ev["msg"]["k"] not in ("mod", "del"):
+            continue
+        m = ev["msg"]
+        s = live(prev, m["seid"])
+        if s is None:
+            continue
+        rsp = [x for x in (o["sends"] or []) if x["type"] in ("modrsp", "delrsp") and x["cause"] == 1]
+        ies = [ie for x in rsp for ie in (x["urs"] or [])]
+        if m["k"] == "del":
+            for ie in ies:
+                if not ie["trig"] & TERMR:
+                    bad.append((i, "usage report for URR %d in the Deletion Response is not marked as termination report" % ie["urr"]))
+            seen = [ie["urr"] for ie in ies]
+            if len(seen) != len(set(seen)):
+                bad.append((i, "Deletion Response carries more than one report for a URR"))
+            continue
+        ops = m.get("ops") or {}
+        touched = [k for k in ("cURR", "cPDR", "rURR", "uURR", "uPDR", "rPDR", "qURR") if ops.get(k)]
+        urrs = _sess_urrs(s)
+        fails = {(f["op"], f["kind"], f["id"]) for f in ev.get("fail", [])}
+        usage = {}
+        for u in ev.get("usage", []):
+            usage.setdefault((u["op"], u["id"]), u["rpts"])
+        indp = {(r[1], r[2]) for r in prev_dp if r[0] == m["seid"]}
+        if touched == ["rPDR"] or touched == ["uPDR"]:
+            # exact expectation for a request that only removes / re-points PDRs
+            pm = _pdr_map(s)
+            ref = {u: sum(1 for ids in pm.values() if u in ids) for u in urrs}
+            expect = []
+            if touched == ["rPDR"]:
+                for pid in ops["rPDR"]:
+                    if pid is None or pid not in pm or (KIDX["pdr"], pid) not in indp:
+                        continue
+                    for u in sorted(pm.pop(pid)):
+                        if u in ref and ref[u] > 0:
+                            ref[u] -= 1
+                            if ref[u] == 0 and (KIDX["urr"], u) in indp and ("query", "urr", u) not in fails:
+                                expect += [(u, r) for r in usage.get(("query", u), [])]
+                    indp.discard((KIDX["pdr"], pid))
+            else:
+                for p in ops["uPDR"]:
+                    pid = p.get("id") if p.get("id") is not None else 0
+                    if pid not in pm or (KIDX["pdr"], pid) not in indp or ("update", "pdr", pid) in fails or not p.get("urrs"):
+                        continue
+                    new = set(p["urrs"])
+                    for u in sorted(new - pm[pid]):
+                        if u in ref:
+                            ref[u] += 1
+                    for u in sorted(pm[pid] - new):
+                        if u in ref and ref[u] > 0:
+                            ref[u] -= 1
+                            if ref[u] == 0 and (KIDX["urr"], u) in indp and ("query", "urr", u) not in fails:
+                                expect += [(u, r) for r in usage.get(("query", u), [])]
+                    pm[pid] = new
+            exp_known = [(u, r) for (u, r) in expect if r["urr"] in urrs]
+            got = sorted((ie["urr"], ie["trig"]) for ie in ies)
+            want = sorted((r["urr"], (r["trig"] | TERMR) % (1 << 24)) for (u, r) in exp_known)
+            if got != want:
+                bad.append((i, "final usage of dissociated URRs: response carries %s (urr, trigger), expected %s" % (got, want)))
+        if touched == ["rURR"]:
+            want = []
+            gone = set()
+            for u in ops["rURR"]:
+                if u is None or u not in urrs or u in gone:
+                    continue
+                if (KIDX["urr"], u) in indp:
+                    rs = [r for r in usage.get(("remove", u), []) if r["urr"] in urrs and r["urr"] not in gone]
+                    indp.discard((KIDX["urr"], u))
+                    for r in rs[:1] if any(r["urr"] == u for r in rs[:1]) else rs:
+                        want.append((r["urr"], (r["trig"] | TERMR) % (1 << 24)))
+                    if rs and rs[0]["urr"] == u:
+                        gone.add(u)
+            for ie in ies:
+                if not ie["trig"] & TERMR:
+                    bad.append((i, "report for removed URR %d is not marked as termination report" % ie["urr"]))
+        if touched == ["qURR"]:
+            for ie in ies:
+                if not ie["trig"] & IMMER:
+                    bad.append((i, "report for queried URR %d is not marked as immediate report" % ie["urr"]))
+    return bad
+
+
+def sig_c12(case, failures):
+    """create-pdr-existing-id: a Create PDR names a PDR id the session already holds"""
+    if not any("referring PDRs" in m or "final usage" in m for _, m in failures):
+        return None
+    have = {}
+    nsess = 0
+    for ev in case["events"]:
+        if ev["t"] != "recv":
+            continue
+        m = ev["msg"]
+        ops = m.get("ops") or {}
+        ids = [(p.get("id") if p.get("id") is not None else 0) for p in ops.get("cPDR", [])]
+        if m["k"] == "est":
+            nsess += 1
+            if len(ids) != len(set(ids)):
+                return "create-pdr-existing-id"
+            have[nsess] = set(ids)
+        if m["k"] == "mod":
+            cur = have.setdefault(m["seid"], set())
+            for p in ids:
+                if p in cur:
+                    return "create-pdr-existing-id"
+                cur.add(p)
+            for p in ops.get("rPDR", []):
+                cur.discard(p)
+    return None
+
+
+def mon_c13(case, obs, prefix):
+    bad = []
+    cap = 512
+    for i, ev, o, prev, prev_dp, dup in walk(case, obs, prefix):
+        if o.get("fault"):
+            bad.append((i, "fault: " + o["fault"]))
+            break
+        d = o["dump"]
+        for idx, s in enumerate(d["slots"] or []):
+            for q in (s or {}).get("q") or []:
+                if len(q["pkts"] or []) > cap:
+                    bad.append((i, "queue of session %d PDR %d holds %d packets" % (idx + 1, q["pdr"], len(q["pkts"]))))
+        if ev["t"] != "report":
+            continue
+        s = live(prev, ev["seid"])
+        if s is None:
+            continue
+        now = live(d, ev["seid"])
+        qs = {q["pdr"]: list(q["pkts"] or []) for q in (s["q"] or [])}
+        dldr = []
+        for it in ev["items"]:
+            if not it.get("dld"):
+                continue
+            x = it["dld"]
+            if x["action"] & 4 and x["pkt"]:
+                q = qs.setdefault(x["pdr"], [])
+                if len(q) < cap:
+                    q.append(x["pkt"])
+            if not x["action"] & 8:
+                break
+            dldr.append(x["pdr"])
+        got = {q["pdr"]: list(q["pkts"] or []) for q in ((now or {}).get("q") or [])}
+        if now is not None and got != qs:
+            bad.append((i, "packet queues after the notification differ from arrival order / capacity rule"))
+        sent = [x["dldr"] for x in (o["sends"] or []) if x["type"] == "srreq" and x["dldr"] >= 0]
+        if sent != dldr:
+            bad.append((i, "downlink data reports sent for PDRs %s, requested (NOCP) for %s" % (sent, dldr)))
+        owner = _owner_peer(prev, s, prefix)
+        for x in (o["sends"] or []):
+            if x["type"] == "srreq" and x["dldr"] >= 0 and (x["dst"] != owner or x["seid"] != s["rid"]):
+                bad.append((i, "downlink data report not addressed to the owning node with the peer's SEID"))
+    return bad
+
+
+def directed_c13(rnd):
+    """bursts below, at and beyond the queue capacity in ONE notification batch; then session end and SEID re-use"""
+    def rc(peer, seq, msg):
+        return {"t": "recv", "peer": peer, "seq": seq, "msg": msg, "fail": [], "usage": []}
+    out = []
+    for n in (511, 512, 513, 700):
+        items = [{"dld": {"pdr": 1 + (k % 2 if n == 700 else 0), "action": 4 | (8 if k == 0 else 0), "pkt": "%04x" % k}} for k in range(n)]
+        evs = [rc(0, 1, {"k": "asr", "nid": {"v": 0}}),
+               rc(0, 2, {"k": "est", "nid": {"v": 0}, "fseid": {"v": 10}, "ops": {"cFAR": [1], "cPDR": [{"id": 1, "urrs": [], "ueip": False}]}}),
+               {"t": "report", "seid": 1, "items": [{"dld": {"pdr": 1, "action": 12, "pkt": "ffff"}}], "fail": [], "usage": []},
+               {"t": "report", "seid": 1, "items": [dict(it, dld=dict(it["dld"], action=12)) if k == 0 else it for k, it in enumerate(items)], "fail": [], "usage": []},
+               {"t": "report", "seid": 1, "items": [{"dld": {"pdr": 1, "action": 4, "pkt": "eeee"}}], "fail": [], "usage": []},
+               rc(0, 3, {"k": "del", "seid": 1}),
+               rc(0, 4, {"k": "est", "nid": {"v": 0}, "fseid": {"v": 11}, "ops": {"cPDR": [{"id": 1, "urrs": [], "ueip": False}]}}),
+               {"t": "report", "seid": 1, "items": [{"dld": {"pdr": 1, "action": 4, "pkt": "dddd"}}], "fail": [], "usage": []}]
+        out.append({"maxretrans": 0, "txseq0": 0, "events": evs})
+    return out
+
+
 # ---------------------------------------------------------------- runner
 
 def shrink(ctx, harness, case, monitor, budget=40):
